@@ -33,7 +33,9 @@ CONSTANT S            \* scale (power of two): real value = integer / S
 
 NoLim == -999999      \* "limit is None"
 Kinds == {"none", "mult", "smult", "pow", "spow", "sharp"}
-RedNames == {"sum", "mean", "amax", "amin"}
+\* shipped torch reductions, and custom ones that are NOT the identity on a single part:
+\* "sum2" = 2 * sum, "clip" = min(sum, 1/2), "sumsq" = sum of squares
+RedNames == {"sum", "mean", "amax", "amin", "sum2", "clip", "sumsq"}
 
 Out(st, r) == [st |-> st, ret |-> r]
 OkRet == [t |-> "ok"]
@@ -78,15 +80,25 @@ MaxTo(L, e, n) == IF n = 1 THEN L[1][e] ELSE MaxI(MaxTo(L, e, n - 1), L[n][e])
 RECURSIVE MinTo(_, _, _)
 MinTo(L, e, n) == IF n = 1 THEN L[1][e] ELSE MinI(MinTo(L, e, n - 1), L[n][e])
 
+RECURSIVE SqTo(_, _, _)
+SqTo(L, e, n) == IF n = 0 THEN 0 ELSE SqTo(L, e, n - 1) + MulS(L[n][e], L[n][e])
+
 ReduceE(r, L, e) ==
   CASE r = "sum"  -> SumTo(L, e, Len(L))
     [] r = "mean" -> SumTo(L, e, Len(L)) \div Len(L)
     [] r = "amax" -> MaxTo(L, e, Len(L))
     [] r = "amin" -> MinTo(L, e, Len(L))
+    [] r = "sum2" -> 2 * SumTo(L, e, Len(L))
+    [] r = "clip" -> MinI(SumTo(L, e, Len(L)), S \div 2)
+    [] r = "sumsq" -> SqTo(L, e, Len(L))
 
 Reduce(r, L) == [e \in 1..Len(L[1]) |-> ReduceE(r, L, e)]
 ReduceOpt(r, L) == IF Len(L) = 0 THEN NoneV ELSE SomeV(Reduce(r, L))
-ReduceOK(r, L) == r # "mean" \/ Len(L) = 0 \/ \A e \in 1..Len(L[1]) : SumTo(L, e, Len(L)) % Len(L) = 0
+ReduceEOK(r, L, e) ==
+  CASE r = "mean"  -> SumTo(L, e, Len(L)) % Len(L) = 0
+    [] r = "sumsq" -> \A n \in 1..Len(L) : MulOK(L[n][e], L[n][e])
+    [] OTHER -> TRUE
+ReduceOK(r, L) == Len(L) = 0 \/ \A e \in 1..Len(L[1]) : ReduceEOK(r, L, e)
 
 (***************************************************************************)
 (* Bounding kernels, one element.  h = [k, lim, pw, rg]; side "up": the    *)
@@ -292,11 +304,17 @@ BagSumE(B, e) == LET RECURSIVE Sm(_)
                  IN Sm(DOMAIN B)
 BagMaxE(B, e) == CHOOSE m \in {v[e] : v \in DOMAIN B} : \A v \in DOMAIN B : v[e] <= m
 BagMinE(B, e) == CHOOSE m \in {v[e] : v \in DOMAIN B} : \A v \in DOMAIN B : v[e] >= m
+BagSqE(B, e) == LET RECURSIVE Sq(_)
+                    Sq(D) == IF D = {} THEN 0 ELSE LET v == CHOOSE y \in D : TRUE IN B[v] * MulS(v[e], v[e]) + Sq(D \ {v})
+                IN Sq(DOMAIN B)
 BagReduceE(r, B, e) ==
   CASE r = "sum"  -> BagSumE(B, e)
     [] r = "mean" -> BagSumE(B, e) \div BagSize(B)
     [] r = "amax" -> BagMaxE(B, e)
     [] r = "amin" -> BagMinE(B, e)
+    [] r = "sum2" -> 2 * BagSumE(B, e)
+    [] r = "clip" -> MinI(BagSumE(B, e), S \div 2)
+    [] r = "sumsq" -> BagSqE(B, e)
 BagReduceOpt(r, B, E) == IF DOMAIN B = {} THEN NoneV ELSE SomeV([e \in 1..E |-> BagReduceE(r, B, e)])
 
 \* the property's formula: old + bound_upper(reduce(pos)) - bound_lower(reduce(neg))
